@@ -25,6 +25,7 @@ WITH THE SOFTWARE OR THE USE OR OTHER DEALINGS IN THE SOFTWARE.
 
 
 #include "Interpret.h"
+#include <common/VerifTrace.h>
 
 #include <api/smt2tokens.h>
 #include <logics/ArithLogic.h>
@@ -1221,6 +1222,9 @@ int Interpret::interpPipe() {
                     rd_head = rd_head-i-1;
 
                     i = -1; // will be incremented to 0 by the loop condition.
+#ifdef OPENSMT_VERIF
+                    if (VERIF_ON()) { VERIF_LINE("pc %s", opensmt::verif::enc(buf_out).c_str()); }
+#endif
                     Smt2newContext context(buf_out);
                     int rval = osmt_yyparse(&context);
                     if (rval != 0)
@@ -1234,6 +1238,7 @@ int Interpret::interpPipe() {
                 }
                 if (par < 0) {
                     notify_formatted(true, "pipe reader: unbalanced parentheses");
+                    VERIF_LINE("pc-unbalanced");
                     done = true;
                 }
             }
